@@ -75,6 +75,6 @@ P = D.DesignProperty(
           "3 more than exist; non-trivial = at least 2 distinct valid sequences and a derived factor, constraint or weight present; "
           "class count-checked = single-round designs without complex windows or rejection-enforced constraints; distinct = distinct spec JSON"),
     cfg_quick=CFG, n_quick=60, n_thorough=600, case_limit=(15, 120),
-    limits={"max_T": {"quick": 7, "thorough": 9}, "max_seqs": {"quick": 300, "thorough": 3000}},
+    limits={"max_T": {"quick": 7, "thorough": 9}, "max_seqs": {"quick": 800, "thorough": 4000}},
     assumptions=["vp/ref.py implements the documented semantics", "termination is judged by the per-case time limit: a time-out is inconclusive, not a violation"])
 P.export(globals())
